@@ -217,7 +217,9 @@ class C26(Check):
                         ok = False
                 live = set(id(under(ix)) for ix in list(table.values()) + list(pend.values()) if ix.cs is not None)
                 for s in accepted:
-                    if id(s) not in live and not (s.closed or s.shut_wr):
+                    # a connection whose peer already reset it is down: shutdown() on it fails with ENOTCONN (measured), which
+                    # the library swallows; nothing more can be demanded of the replacement than the attempt
+                    if id(s) not in live and not (s.closed or s.shut_wr or s.got_rst):
                         fail("stale-not-shutdown", "replaced / removed connection from %r was neither shut down nor closed" % (s.raddr,))
                         ok = False
                 abstract.update(b"%d,%d;" % (len(table), len(accepted)))
